@@ -119,14 +119,14 @@ import tempfile
 from . import core
 
 
-def _lines(path):
-    with open(path, encoding='utf-8') as f:
+def _lines(path, enc='utf-8'):
+    with open(path, encoding=enc) as f:
         return [ln for ln in f.read().split('\n') if ln.strip() != '']
 
 
-def pmcfg_records(path, atoms):
+def pmcfg_records(path, atoms, enc='utf-8'):
     out = []
-    for ln in _lines(path):
+    for ln in _lines(path, enc):
         toks = ln.split()
         rec = {'toks': [atoms.abst(t) for t in toks], 'cnt': -1, 'pairs': []}
         if len(toks) == 2 and toks[1].isdigit():
@@ -160,9 +160,9 @@ def rcg_records(path, atoms):
     return out
 
 
-def tok_records(path, atoms):
+def tok_records(path, atoms, enc='utf-8'):
     out = []
-    for ln in _lines(path):
+    for ln in _lines(path, enc):
         toks = ln.split()
         out.append({'toks': [atoms.abst(t) for t in toks],
                     'nums': [int(t) if t.isdigit() else -1 for t in toks]})
@@ -237,24 +237,37 @@ def record_files_case(cid, Ts, binmode, mods, seed, with_cli=False, origin='rand
         write('rcg', True)
         write('lopar', False)
         if with_cli:
-            def cli(args, src):
+            allw = ''.join(lex)
+            encs = [('utf-8', 'utf-8'), ('utf-8', 'utf-16'), ('utf-16', 'utf-8')]
+            try:
+                allw.encode('latin-1')
+                encs += [('latin-1', 'utf-8'), ('utf-8', 'latin-1'), ('latin-1', 'utf-16')]
+            except UnicodeEncodeError:
+                pass
+            src_enc, dest_enc = rnd.choice(encs)
+
+            def cli(args, src, denc):
                 dest = os.path.join(tmp, 'cli_' + src)
                 p = subprocess.run([core.VENV_PY, os.path.join(core.REPO, 'treetools'), 'grammar'] + args(dest),
                                    stdout=subprocess.PIPE, stderr=subprocess.PIPE, cwd=tmp)
-                ev = {'a': 'cli', 'src': src, 'rc': p.returncode, 'files': {'pmcfg': [], 'lex': []}}
+                ev = {'a': 'cli', 'src': src, 'rc': p.returncode, 'files': {'pmcfg': [], 'lex': []},
+                      'encs': '%s->%s' % (src_enc if src == 'export' else 'utf-8', denc)}
                 if p.returncode == 0 and os.path.exists(dest + '.pmcfg'):
-                    ev['files']['pmcfg'] = pmcfg_records(dest + '.pmcfg', atoms)
-                    ev['files']['lex'] = tok_records(dest + '.lex', atoms) if os.path.exists(dest + '.lex') else []
+                    try:
+                        ev['files']['pmcfg'] = pmcfg_records(dest + '.pmcfg', atoms, denc)
+                        ev['files']['lex'] = tok_records(dest + '.lex', atoms, denc) if os.path.exists(dest + '.lex') else []
+                    except UnicodeError:
+                        ev['files'] = {'pmcfg': [{'toks': ['<undecodable>'], 'cnt': -1, 'pairs': []}], 'lex': []}
                 else:
                     ev['stderr'] = p.stderr.decode('utf-8', 'replace')[-300:]
                 events.append(ev)
-            cli(lambda d: [rdest, d, 'treebank', '--src-format', 'rcg'], 'rcg')
+            cli(lambda d: [rdest, d, 'treebank', '--src-format', 'rcg', '--dest-enc', dest_enc], 'rcg', dest_enc)
             if not binmode:
                 tb = os.path.join(tmp, 'tb.export')
-                with open(tb, 'w', encoding='utf-8') as f:
+                with open(tb, 'w', encoding=src_enc) as f:
                     for r in roots:
                         to.export(r, f)
-                cli(lambda d: [tb, d, 'treebank'], 'export')
+                cli(lambda d: [tb, d, 'treebank', '--src-enc', src_enc, '--dest-enc', dest_enc], 'export', dest_enc)
     finally:
         shutil.rmtree(tmp, ignore_errors=True)
     return {'id': cid, 'origin': origin, 'events': events, 'tags': []}
